@@ -70,7 +70,7 @@ func (tr *Tr) havocLog(st *State) {
 	tr.set(st, "wcount", f.Fresh("wcount", ArrS(S64, S64)))
 	e := tr.get(st, "epoch")
 	ne := f.Fresh("epoch", S64)
-	tr.assume(f.ULe(e, ne), "sync epoch is monotone")
+	tr.assume(f.And(f.ULe(e, ne), f.ULt(ne, f.BVu(64, 1<<62))), "sync epoch is monotone")
 	tr.set(st, "epoch", ne)
 }
 
@@ -472,7 +472,7 @@ func (tr *Tr) appendOp(fr *Frame, site ssa.Instruction, c *ssa.CallCommon) Val {
 	if !inplace.IsTrue() {
 		stNew = fr.st.clone()
 		oldInner := tr.snapshot(stNew, keys, s[0])
-		newReg = tr.allocRegion(stNew)
+		newReg = tr.allocTyped(stNew, c.Args[0].Type().Underlying())
 		tr.copyRange(stNew, keys, newReg, f.BVi(64, 0), oldInner, s[1], f.Mul(s[2], f.BVi(64, m)))
 		tr.copyRange(stNew, keys, newReg, f.Mul(s[2], f.BVi(64, m)), srcInner, soff, f.Mul(n, f.BVi(64, m)))
 		newCap = f.Fresh("appcap", S64)
@@ -710,6 +710,7 @@ type modItem struct {
 	lo, hi *Term // slot range (when !whole)
 	events bool
 	maps   types.Type
+	objsOf types.Type // every object allocated with this type may change (type-based frame)
 }
 
 // evalModifies evaluates the modifies clauses of a contract in the given (pre) environment.
@@ -767,7 +768,19 @@ func (tr *Tr) evalModifies(env *Env, ct *Contract) (items []modItem, ok bool) {
 					env.fail("modifies: no field %s", x.Sel.Name)
 				}
 			case *ast.CallExpr:
-				if id, isId := x.Fun.(*ast.Ident); isId && id.Name == "region" {
+				if id, isId := x.Fun.(*ast.Ident); isId && id.Name == "each" {
+					// each(s): the objects the elements of s point to; framed by allocation type
+					v := env.eval(x.Args[0])
+					sl, isS := v.T.Underlying().(*types.Slice)
+					if !isS {
+						env.fail("each(s): s must be a slice of pointers")
+					}
+					pt, isP := sl.Elem().Underlying().(*types.Pointer)
+					if !isP {
+						env.fail("each(s): s must be a slice of pointers")
+					}
+					it = modItem{objsOf: pt.Elem(), keys: keysOfType(pt.Elem())}
+				} else if id, isId := x.Fun.(*ast.Ident); isId && id.Name == "region" {
 					v := env.eval(x.Args[0])
 					k := 0
 					if isIface(v.T) {
@@ -788,7 +801,7 @@ func (tr *Tr) evalModifies(env *Env, ct *Contract) (items []modItem, ok bool) {
 				env.fail("unsupported modifies item")
 			}
 		}()
-		if it.reg != nil || it.maps != nil {
+		if it.reg != nil || it.maps != nil || it.objsOf != nil {
 			items = append(items, it)
 		}
 	}
@@ -803,6 +816,16 @@ func (tr *Tr) applyModifies(st *State, items []modItem) {
 			tr.havocLog(st)
 		case it.maps != nil:
 			tr.havocMapType(st, it.maps)
+		case it.objsOf != nil:
+			tag := f.BVu(64, typeTag(it.objsOf))
+			for _, k := range it.keys {
+				old := tr.get(st, heapComp(k))
+				nh := f.Fresh("Hobj"+k, old.S)
+				r := f.BoundVar("r", S64)
+				tr.assume(f.Forall([]*Term{r}, f.Implies(f.Neq(tr.rtype(r), tag), f.Eq(f.Select(nh, r), f.Select(old, r))), []*Term{f.Select(nh, r)}),
+					"only objects allocated as "+it.objsOf.String()+" may have changed")
+				tr.set(st, heapComp(k), nh)
+			}
 		case it.whole:
 			tr.havocRegionKeys(st, it.reg, it.keys)
 		default:
